@@ -75,9 +75,10 @@ pub fn http_date(unix_secs: i64) -> String {
 
 /// Smithy epoch-seconds: decimal seconds with optional fraction
 pub fn epoch_seconds(unix_millis: i128) -> String {
-    let secs = unix_millis.div_euclid(1000);
-    let ms = unix_millis.rem_euclid(1000);
-    if ms == 0 { format!("{secs}") } else { format!("{secs}.{ms:03}").trim_end_matches('0').to_owned() }
+    let sign = if unix_millis < 0 { "-" } else { "" };
+    let a = unix_millis.unsigned_abs();
+    let (secs, ms) = (a / 1000, a % 1000);
+    if ms == 0 { format!("{sign}{secs}") } else { format!("{sign}{secs}.{ms:03}").trim_end_matches('0').to_owned() }
 }
 
 pub fn self_test() -> Result<(), String> {
@@ -89,6 +90,9 @@ pub fn self_test() -> Result<(), String> {
     }
     if http_date(784_111_777) != "Sun, 06 Nov 1994 08:49:37 GMT" {
         return Err(format!("time ref: http_date = {}", http_date(784_111_777)));
+    }
+    if epoch_seconds(-999) != "-0.999" || epoch_seconds(-1500) != "-1.5" || epoch_seconds(1243) != "1.243" || epoch_seconds(-86_400_000) != "-86400" {
+        return Err("time ref: epoch seconds".into());
     }
     if rfc3339(1_577_836_800_000, 8 * 60, false) != "2020-01-01T08:00:00+08:00" {
         return Err("time ref: offset".into());
